@@ -584,7 +584,7 @@ impl Scenario for SpendNet {
             txid[0] = u as u8;
             utxos.push(json!({"family": family, "m": rng.range(1, n), "keys": keys, "verify": rng.chance(1, 3), "uncompressed": rng.chance(1, 5), "seps": seps,
                 "sep_in_branch": rng.chance(1, 12), "branch_at": rng.below(8), "pad": if rng.chance(1, 4) { *rng.pick(&[1u64, 75, 76, 200, 255, 256, 300]) } else { 0 }, "pad_to": if rng.chance(1, 8) { *rng.pick(&[252u64, 253, 254, 252, 253, 65535, 65536, 65537]) } else { 0 },
-                "branch_form": rng.below(3), "lock_api": rng.chance(1, 2), "sep_after_check": rng.chance(1, 4), "multisig_uncompressed": rng.chance(1, 8), "coinbase_like": rng.chance(1, 30), "value": u64s(match rng.below(4) { 0 => 0, 1 => u64::MAX, _ => rng.below(1 << 44) }), "txid": hx(&txid), "vout": rng.below(3)}));
+                "branch_form": rng.below(3), "lock_api": rng.chance(1, 2), "sep_after_check": rng.chance(1, 4), "multisig_uncompressed": rng.chance(1, 8), "coinbase_like": rng.chance(1, 30), "value": u64s(match rng.below(8) { 0 => 0, 1 => u64::MAX, 2 => u64::MAX - 1, 3 => (1u64 << 53) + 1, 4 => rng.below(1 << 63) | 1, 5 => (1u64 << 63) + 1025, _ => rng.below(1 << 44) }), "txid": hx(&txid), "vout": rng.below(3)}));
         }
         let mut events = vec![json!({"op": "setup", "utxos": utxos, "version": *rng.pick(&[1u32, 2, 0, u32::MAX]), "locktime": *rng.pick(&[0u32, 1, 499_999_999, u32::MAX])})];
         let n_events = rng.range(6, 40);
